@@ -264,4 +264,138 @@ theorem Term.canon_mapVars (μ : Nat → Nat) (t : Term)
   simp only [List.map_nil] at this
   simp [Term.canon, this]
 
+/-! ### unification -/
+
+theorem ISubst.lookup_ren (ρ μ : Nat → Nat) (hμ : ∀ v w, μ v = μ w → v = w) (v : Nat) :
+    ∀ s : ISubst, (s.ren ρ μ).lookup (μ v) = (s.lookup v).map (·.ren ρ μ) := by
+  intro s
+  induction s with
+  | nil => simp [ISubst.ren]
+  | cons p s ih =>
+    obtain ⟨w, t⟩ := p
+    simp only [ISubst.ren, List.map_cons, List.lookup_cons] at ih ⊢
+    by_cases h : v = w
+    · subst h; simp
+    · have h' : μ v ≠ μ w := fun e => h (hμ v w e)
+      have e1 : (μ v == μ w) = false := by simp [h']
+      have e2 : (v == w) = false := by simp [h]
+      simp only [e1, e2]
+      exact ih
+
+theorem ISubst.walk_ren (ρ μ : Nat → Nat) (hμ : ∀ v w, μ v = μ w → v = w) :
+    ∀ (fuel : Nat) (s : ISubst) (t : ITerm),
+      ISubst.walk fuel (s.ren ρ μ) (t.ren ρ μ) = (ISubst.walk fuel s t).ren ρ μ := by
+  intro fuel
+  induction fuel with
+  | zero => intro s t; simp [ISubst.walk]
+  | succ fuel ih =>
+    intro s t
+    cases t with
+    | var v =>
+      simp only [ITerm.ren, ISubst.walk, ISubst.lookup_ren ρ μ hμ v s]
+      cases h : s.lookup v with
+      | none => simp [ITerm.ren]
+      | some t' => simp [ih]
+    | atom a => simp [ITerm.ren, ISubst.walk]
+    | int i => simp [ITerm.ren, ISubst.walk]
+    | app f as => simp [ITerm.ren, ISubst.walk]
+
+mutual
+  theorem ITerm.unify_ren (ρ μ : Nat → Nat) (hρ : ∀ a b, ρ a = ρ b → a = b)
+      (hμ : ∀ v w, μ v = μ w → v = w) : ∀ (fuel : Nat) (t u : ITerm) (s : ISubst),
+      ITerm.unify fuel (t.ren ρ μ) (u.ren ρ μ) (s.ren ρ μ) = (ITerm.unify fuel t u s).map (·.ren ρ μ)
+    | 0, _, _, _ => by simp [ITerm.unify]
+    | fuel + 1, t, u, s => by
+      simp only [ITerm.unify, ISubst.walk_ren ρ μ hμ]
+      generalize ISubst.walk fuel s t = t'
+      generalize ISubst.walk fuel s u = u'
+      cases t' <;> cases u' <;> simp only [ITerm.ren, Option.map_some, Option.map_none]
+      · rename_i v w
+        by_cases h : v = w
+        · subst h; simp
+        · have : μ v ≠ μ w := fun e => h (hμ v w e)
+          simp [h, this, ISubst.ren, ITerm.ren]
+      · simp [ISubst.ren, ITerm.ren]
+      · simp [ISubst.ren, ITerm.ren]
+      · simp [ISubst.ren, ITerm.ren]
+      · simp [ISubst.ren, ITerm.ren]
+      · rename_i a b
+        by_cases h : a = b
+        · subst h; simp
+        · have : ρ a ≠ ρ b := fun e => h (hρ a b e)
+          simp [h, this]
+      · simp [ISubst.ren, ITerm.ren]
+      · rename_i i j
+        by_cases h : i = j <;> simp [h]
+      · simp [ISubst.ren, ITerm.ren]
+      · rename_i g as h bs
+        by_cases e : g = h
+        · subst e
+          simp only [if_true]
+          exact IArgs.unify_ren ρ μ hρ hμ fuel as bs s
+        · have : ρ g ≠ ρ h := fun e' => e (hρ g h e')
+          simp [e, this]
+  theorem IArgs.unify_ren (ρ μ : Nat → Nat) (hρ : ∀ a b, ρ a = ρ b → a = b)
+      (hμ : ∀ v w, μ v = μ w → v = w) : ∀ (fuel : Nat) (ts us : IArgs) (s : ISubst),
+      IArgs.unify fuel (ts.ren ρ μ) (us.ren ρ μ) (s.ren ρ μ) = (IArgs.unify fuel ts us s).map (·.ren ρ μ)
+    | 0, _, _, _ => by simp [IArgs.unify]
+    | fuel + 1, .nil, .nil, s => by simp [IArgs.unify, IArgs.ren]
+    | fuel + 1, .cons t ts, .cons u us, s => by
+      simp only [IArgs.unify, IArgs.ren]
+      rw [ITerm.unify_ren ρ μ hρ hμ fuel t u s]
+      cases ITerm.unify fuel t u s with
+      | none => simp
+      | some s' => simp only [Option.map_some]; exact IArgs.unify_ren ρ μ hρ hμ fuel ts us s'
+    | fuel + 1, .nil, .cons _ _, s => by simp [IArgs.unify, IArgs.ren]
+    | fuel + 1, .cons _ _, .nil, s => by simp [IArgs.unify, IArgs.ren]
+end
+
+/-! ### a renaming that is injective on a finite set extends to a globally injective one -/
+
+def extend (f : Nat → Nat) (L : List Nat) (x : Nat) : Nat :=
+  if x ∈ L then f x else x + ((L.map f).foldr max 0 + 1)
+
+theorem le_foldr_max {M : List Nat} {y : Nat} (h : y ∈ M) : y ≤ M.foldr max 0 := by
+  induction M with
+  | nil => simp at h
+  | cons z M ih =>
+    simp only [List.foldr_cons]
+    rcases List.mem_cons.mp h with rfl | h
+    · exact Nat.le_max_left _ _
+    · exact Nat.le_trans (ih h) (Nat.le_max_right _ _)
+
+theorem extend_agrees (f : Nat → Nat) (L : List Nat) {x : Nat} (h : x ∈ L) : extend f L x = f x := by
+  simp [extend, h]
+
+theorem extend_injective (f : Nat → Nat) (L : List Nat)
+    (hf : ∀ a ∈ L, ∀ b ∈ L, f a = f b → a = b) : ∀ a b, extend f L a = extend f L b → a = b := by
+  intro a b h
+  unfold extend at h
+  by_cases ha : a ∈ L <;> by_cases hb : b ∈ L <;> simp only [ha, hb, if_true, if_false] at h
+  · exact hf a ha b hb h
+  · have := le_foldr_max (List.mem_map_of_mem (f := f) ha); omega
+  · have := le_foldr_max (List.mem_map_of_mem (f := f) hb); omega
+  · omega
+
+mutual
+  theorem ITerm.ren_congr (ρ ρ' μ μ' : Nat → Nat) : ∀ t : ITerm,
+      (∀ a ∈ t.atoms, ρ a = ρ' a) → (∀ v ∈ t.vars, μ v = μ' v) → t.ren ρ μ = t.ren ρ' μ'
+    | .var v, _, hv => by simp [ITerm.ren, hv v (by simp [ITerm.vars])]
+    | .atom a, ha, _ => by simp [ITerm.ren, ha a (by simp [ITerm.atoms])]
+    | .int _, _, _ => by simp [ITerm.ren]
+    | .app f as, ha, hv => by
+      simp only [ITerm.ren, ha f (by simp [ITerm.atoms])]
+      rw [IArgs.ren_congr ρ ρ' μ μ' as (fun a h => ha a (by simp [ITerm.atoms, h]))
+        (fun v h => hv v (by simpa [ITerm.vars] using h))]
+  theorem IArgs.ren_congr (ρ ρ' μ μ' : Nat → Nat) : ∀ ts : IArgs,
+      (∀ a ∈ ts.atoms, ρ a = ρ' a) → (∀ v ∈ ts.vars, μ v = μ' v) → ts.ren ρ μ = ts.ren ρ' μ'
+    | .nil, _, _ => by simp [IArgs.ren]
+    | .cons t ts, ha, hv => by
+      simp only [IArgs.ren]
+      rw [ITerm.ren_congr ρ ρ' μ μ' t (fun a h => ha a (by simp [IArgs.atoms, h]))
+          (fun v h => hv v (by simp [IArgs.vars, h])),
+        IArgs.ren_congr ρ ρ' μ μ' ts (fun a h => ha a (by simp [IArgs.atoms, h]))
+          (fun v h => hv v (by simp [IArgs.vars, h]))]
+end
+
 end PrologVerif.Shared
